@@ -384,9 +384,20 @@ Proof. intros. replace (x * F - y * F) with ((x - y) * F) by ring. apply Z.div_m
 (** * createAudioSeg: the loop over the VoD segments *)
 
 Section Loop.
+Variable fx : bool.     (* which version of L115: see Audio.seg_loop *)
 Variable F : Z.
 Hypothesis HF : 0 < F.
 Hypothesis HF32 : F < two32.
+
+(** with [startIdx = 0] the two versions of L115 assign the same [endIdx] *)
+Lemma last_end_any it tl cnt :
+  i_start it = 0 -> 0 <= cnt < two32 ->
+  (if fx then set_last_end_rel (it :: tl) cnt else set_last_end (it :: tl) cnt)
+  = Ok ({| i_seg := i_seg it; i_start := 0; i_end := cnt; i_fill := i_fill it |} :: tl).
+Proof.
+  intros H0 Hc. destruct fx; cbn [set_last_end_rel set_last_end]; rewrite H0; [|reflexivity].
+  rewrite Z.add_0_l, u32_small by lia. reflexivity.
+Qed.
 
 (** Phase 2: a first interval has been collected, the segment at the head starts at [next]
     (frame [off]), its interval [(i, 0, _, _)] is pending at the head of the accumulator.
@@ -397,7 +408,7 @@ Lemma seg_loop_collect all A bF :
     all = pre ++ segs -> segs <> [] ->
     A < tot pre * F -> tot pre < bF ->
     exists its,
-      seg_loop F A (bF * F) (lenZ all - 1) segs (lenZ pre) (tot pre * F) tc (mk_itvl (lenZ pre) 0 :: acc)
+      seg_loop fx F A (bF * F) (lenZ all - 1) segs (lenZ pre) (tot pre * F) tc (mk_itvl (lenZ pre) 0 :: acc)
       = Ok (u64 (tc + (bF * F - tot pre * F)), its ++ acc)
       /\ expand all (rev its) = Ok (map (clip (tot all)) (rangeZ (tot pre) bF)).
 Proof.
@@ -470,11 +481,11 @@ Proof.
            f_equal. f_equal; [f_equal; ring|]. f_equal; lia.
   - (* the interval ends inside this segment *)
     assert (Hlt2 : bF < off + cnt) by nia.
-    cbn [set_last_end mk_itvl i_seg i_start i_fill bind last_dur].
     assert (Ee : u32 (u64 (bF * F - off * F) / F) = bF - off).
     { rewrite u64_small by (unfold two32, two64 in *; nia).
       rewrite div_frames by lia. apply u32_small. lia. }
-    rewrite Ee.
+    rewrite Ee. unfold mk_itvl at 1 2. rewrite last_end_any by (cbn [i_start]; lia).
+    cbn [i_seg i_start i_fill bind last_dur].
     exists [{| i_seg := lenZ pre; i_start := 0; i_end := bF - off; i_fill := 0 |}]. split.
     + cbn [app]. f_equal. f_equal. unfold itvl_dur. cbn [i_start i_end].
       rewrite Z.sub_0_r, u32_small by lia.
@@ -488,12 +499,12 @@ Qed.
     interval starts in the segment that contains [A]. Not-inner case. *)
 Lemma seg_loop_first all aF bF :
   chain F 0 all -> tot all < two32 -> 0 <= aF -> aF <= bF -> bF < two32 ->
-  inner all (aF * F) (bF * F) = false ->
+  fx = true \/ inner all (aF * F) (bF * F) = false ->
   forall segs pre,
     all = pre ++ segs ->
     tot pre <= aF -> aF < tot pre + tot segs ->
     exists its,
-      seg_loop F (aF * F) (bF * F) (lenZ all - 1) segs (lenZ pre) (aF * F) 0 []
+      seg_loop fx F (aF * F) (bF * F) (lenZ all - 1) segs (lenZ pre) (aF * F) 0 []
       = Ok (u64 (bF * F - aF * F), its)
       /\ its <> []
       /\ expand all (rev its) = Ok (map (clip (tot all)) (rangeZ aF bF)).
@@ -583,22 +594,31 @@ Proof.
               rewrite (rangeZ_split aF (off + cnt) bF) by lia. rewrite map_app.
               rewrite (map_clip_below (tot all) aF (off + cnt)) by lia. rewrite map_clip_above by lia.
               f_equal. f_equal; [f_equal; ring|]. f_equal; lia.
-    + (* the interval ends inside the segment it starts in: not inner, so it starts with the segment *)
+    + (* the interval ends inside the segment it starts in *)
       assert (Hlt2 : bF < off + cnt) by nia.
-      assert (aF = off).
-      { destruct (Z.eq_dec aF off) as [|Hn]; [assumption|exfalso].
-        pose proof (in_inner all (aF * F) (bF * F) s Hinner Hin) as P.
-        rewrite Hst, Een in P. assert ((off + cnt) * F <= bF * F) by (apply P; nia). nia. }
-      subst aF.
-      cbn [set_last_end mk_itvl i_seg i_start i_fill bind last_dur].
-      assert (Ee : u32 (u64 (bF * F - off * F) / F) = bF - off).
+      assert (Ee : u32 (u64 (bF * F - aF * F) / F) = bF - aF).
       { rewrite u64_small by (unfold two32, two64 in *; nia).
         rewrite div_frames by lia. apply u32_small. lia. }
-      rewrite Ee. replace (off - off) with 0 by ring.
-      exists [{| i_seg := lenZ pre; i_start := 0; i_end := bF - off; i_fill := 0 |}]. split; [|split].
+      rewrite Ee.
+      assert (Eacc : (if fx then set_last_end_rel [mk_itvl (lenZ pre) (aF - off)] (bF - aF)
+                      else set_last_end [mk_itvl (lenZ pre) (aF - off)] (bF - aF))
+                     = Ok [{| i_seg := lenZ pre; i_start := aF - off; i_end := bF - off; i_fill := 0 |}]).
+      { destruct Hinner as [Hfx|Hinner].
+        - (* repaired code: endIdx = startIdx + count *)
+          rewrite Hfx. cbn [set_last_end_rel mk_itvl i_seg i_start i_fill].
+          replace (aF - off + (bF - aF)) with (bF - off) by ring. rewrite u32_small by lia. reflexivity.
+        - (* code as found: not inner, so the interval starts with the segment *)
+          assert (aF = off).
+          { destruct (Z.eq_dec aF off) as [|Hn]; [assumption|exfalso].
+            pose proof (in_inner all (aF * F) (bF * F) s Hinner Hin) as P.
+            rewrite Hst, Een in P. assert ((off + cnt) * F <= bF * F) by (apply P; nia). nia. }
+          subst aF. rewrite last_end_any by (cbn [i_start mk_itvl]; lia).
+          cbn [mk_itvl i_seg i_fill]. replace (off - off) with 0 by ring. reflexivity. }
+      rewrite Eacc. cbn [bind last_dur].
+      exists [{| i_seg := lenZ pre; i_start := aF - off; i_end := bF - off; i_fill := 0 |}]. split; [|split].
       * f_equal. f_equal. unfold itvl_dur. cbn [i_start i_end].
-        rewrite Z.sub_0_r, u32_small by lia.
-        rewrite (u64_small ((bF - off) * F)) by (unfold two32, two64 in *; nia).
+        replace (bF - off - (aF - off)) with (bF - aF) by ring. rewrite u32_small by lia.
+        rewrite (u64_small ((bF - aF) * F)) by (unfold two32, two64 in *; nia).
         rewrite Z.add_0_l. f_equal. ring.
       * discriminate.
       * cbn [rev app]. rewrite expand_one, Eall, expand1_at by (fold cnt; lia). cbn [bind].
@@ -634,7 +654,7 @@ Lemma seg_loop_first_inner all aF bF :
     all = pre ++ segs ->
     tot pre <= aF -> aF < tot pre + tot segs ->
     exists tc its,
-      seg_loop F (aF * F) (bF * F) (lenZ all - 1) segs (lenZ pre) (aF * F) 0 [] = Ok (tc, its)
+      seg_loop false F (aF * F) (bF * F) (lenZ all - 1) segs (lenZ pre) (aF * F) 0 [] = Ok (tc, its)
       /\ u64 (u64 (bF * F - aF * F) - tc) <> 0.
 Proof.
   intros Hall HN HaF Hab HbF Hinner segs.
@@ -727,8 +747,8 @@ Lemma create_audio_seg_ok segs rc aF bF :
   0 <= aF -> aF <= bF -> bF < two32 -> aF < tot segs ->
   r_inStart rc = aF * F -> r_inEnd rc = bF * F -> r_after rc = 0 ->
   r_end rc - r_start rc = bF * F - aF * F ->
-  inner segs (aF * F) (bF * F) = false ->
-  create_audio_seg F segs rc =
+  fx = true \/ inner segs (aF * F) (bF * F) = false ->
+  create_audio_seg fx F segs rc =
   Ok {| o_tfdt := r_start rc; o_seq := r_nr rc; o_frames := map (clip (tot segs)) (rangeZ aF bF) |}.
 Proof.
   intros Hwf HN HL HaF Hab HbF Hreach EA EB Eafter Edur Hinner.
@@ -751,7 +771,7 @@ Lemma create_audio_seg_inner segs rc aF bF :
   r_inStart rc = aF * F -> r_inEnd rc = bF * F -> r_after rc = 0 ->
   r_end rc - r_start rc = bF * F - aF * F ->
   inner segs (aF * F) (bF * F) = true ->
-  create_audio_seg F segs rc = Err "audioLeft != audioInEndAfterWrap".
+  create_audio_seg false F segs rc = Err "audioLeft != audioInEndAfterWrap".
 Proof.
   intros Hwf HN HL HaF Hab HbF Hreach EA EB Eafter Edur Hinner.
   unfold create_audio_seg, intervals. replace (F =? 0) with false by lia.
@@ -808,9 +828,9 @@ Definition in_end (D w e' : Z) : Z := f (w * D + e') - f (w * D).
 Definition not_inner (segs : list seg) (D w s' e' : Z) : Prop :=
   inner segs (in_start D w s') (in_end D w e') = false.
 
-Lemma served_frames nr segs D w s' e' :
-  served_pre segs D w s' e' -> not_inner segs D w s' e' ->
-  audio_segment nr (w * D + s') (w * D + e') D r F a segs =
+Lemma served_frames fx nr segs D w s' e' :
+  served_pre segs D w s' e' -> fx = true \/ not_inner segs D w s' e' ->
+  audio_segment fx nr (w * D + s') (w * D + e') D r F a segs =
   Ok {| o_tfdt := f (w * D + s'); o_seq := nr;
         o_frames := map (fun g => Z.min (g - c (w * D)) (tot segs - 1))
                         (rangeZ (c (w * D + s')) (c (w * D + e'))) |}.
@@ -820,10 +840,11 @@ Proof.
   assert (HwD : 0 <= w * D) by nia.
   pose proof (fidx_mono r F a Hr HF Ha (w * D) (w * D + s') ltac:(lia)).
   pose proof (fidx_mono r F a Hr HF Ha (w * D + s') (w * D + e') ltac:(lia)).
-  rewrite (create_audio_seg_ok F HF HF32 segs _ (c (w * D + s') - c (w * D)) (c (w * D + e') - c (w * D)));
+  rewrite (create_audio_seg_ok fx F HF HF32 segs _ (c (w * D + s') - c (w * D)) (c (w * D + e') - c (w * D)));
     cbn [r_start r_end r_nr r_inStart r_inEnd r_after]; try assumption; try lia; try (unfold fb; ring).
   - now rewrite map_clip_shift.
-  - unfold not_inner, in_start, in_end, fb in Hni.
+  - destruct Hni as [Hfx|Hni]; [left; exact Hfx|right].
+    unfold not_inner, in_start, in_end, fb in Hni.
     replace ((c (w * D + s') - c (w * D)) * F) with (c (w * D + s') * F - c (w * D) * F) by ring.
     replace ((c (w * D + e') - c (w * D)) * F) with (c (w * D + e') * F - c (w * D) * F) by ring.
     exact Hni.
@@ -831,7 +852,7 @@ Qed.
 
 Lemma served_inner_fails nr segs D w s' e' :
   served_pre segs D w s' e' -> ~ not_inner segs D w s' e' ->
-  audio_segment nr (w * D + s') (w * D + e') D r F a segs = Err "audioLeft != audioInEndAfterWrap".
+  audio_segment false nr (w * D + s') (w * D + e') D r F a segs = Err "audioLeft != audioInEndAfterWrap".
 Proof.
   intros [] Hni. unfold audio_segment.
   rewrite (recipe_in_wrap r F a Hr HF Ha nr D w s' e') by assumption. cbn [bind].
@@ -1085,9 +1106,9 @@ Proof.
 Qed.
 
 (** C03_frames: the served audio segment for reference segment [n]. *)
-Lemma ref_served_frames nr segs n :
-  ref_pre segs n -> ref_not_inner segs n ->
-  audio_segment nr (Sv n) (Ev n) Dv r F a segs =
+Lemma ref_served_frames fx nr segs n :
+  ref_pre segs n -> fx = true \/ ref_not_inner segs n ->
+  audio_segment fx nr (Sv n) (Ev n) Dv r F a segs =
   Ok {| o_tfdt := f (Sv n); o_seq := nr;
         o_frames := map (fun g => Z.min (g - c (loop_start n)) (tot segs - 1))
                         (rangeZ (c (Sv n)) (c (Ev n))) |}.
@@ -1098,9 +1119,26 @@ Proof.
   apply served_frames; assumption.
 Qed.
 
+(** the two instances: the code as found, and the code with proposed_fixes/C03-endidx.diff *)
+Lemma ref_served_frames_found nr segs n :
+  ref_pre segs n -> ref_not_inner segs n ->
+  audio_segment false nr (Sv n) (Ev n) Dv r F a segs =
+  Ok {| o_tfdt := f (Sv n); o_seq := nr;
+        o_frames := map (fun g => Z.min (g - c (loop_start n)) (tot segs - 1))
+                        (rangeZ (c (Sv n)) (c (Ev n))) |}.
+Proof. intros. apply ref_served_frames; [assumption|now right]. Qed.
+
+Lemma ref_served_frames_fixed nr segs n :
+  ref_pre segs n ->
+  audio_segment true nr (Sv n) (Ev n) Dv r F a segs =
+  Ok {| o_tfdt := f (Sv n); o_seq := nr;
+        o_frames := map (fun g => Z.min (g - c (loop_start n)) (tot segs - 1))
+                        (rangeZ (c (Sv n)) (c (Ev n))) |}.
+Proof. intros. apply ref_served_frames; [assumption|now left]. Qed.
+
 Lemma ref_served_inner_fails nr segs n :
   ref_pre segs n -> ~ ref_not_inner segs n ->
-  audio_segment nr (Sv n) (Ev n) Dv r F a segs = Err "audioLeft != audioInEndAfterWrap".
+  audio_segment false nr (Sv n) (Ev n) Dv r F a segs = Err "audioLeft != audioInEndAfterWrap".
 Proof.
   intros P Hni. pose proof (ref_served_pre segs n P) as SP.
   destruct (ref_decompose n (rp_n _ _ P)) as (ES & EE & _).
@@ -1111,33 +1149,35 @@ Qed.
 (** the request is answered with a segment exactly when the output interval is not inner *)
 Lemma ref_served_iff nr segs n :
   ref_pre segs n ->
-  ((exists o, audio_segment nr (Sv n) (Ev n) Dv r F a segs = Ok o) <-> ref_not_inner segs n).
+  ((exists o, audio_segment false nr (Sv n) (Ev n) Dv r F a segs = Ok o) <-> ref_not_inner segs n).
 Proof.
   intros P. split.
   - intros [o Ho]. unfold ref_not_inner.
     destruct (inner segs _ _) eqn:I; [|reflexivity].
     rewrite (ref_served_inner_fails nr segs n P) in Ho; [discriminate|].
     unfold ref_not_inner. rewrite I. discriminate.
-  - intros Hni. eexists. apply ref_served_frames; assumption.
+  - intros Hni. eexists. apply ref_served_frames_found; assumption.
 Qed.
 
 (** C03_abut: whenever two consecutive segments are served, the first starts at the frame boundary
     of its reference start, holds [(end - start)/F] frames of duration [F], and the second starts
     exactly where the first ends -- also when [n+1] is the first segment of the next loop. *)
-Lemma ref_abut nr1 nr2 segs n o1 o2 :
+Lemma ref_abut fx nr1 nr2 segs n o1 o2 :
   ref_pre segs n -> ref_pre segs (n + 1) ->
-  audio_segment nr1 (Sv n) (Ev n) Dv r F a segs = Ok o1 ->
-  audio_segment nr2 (Sv (n + 1)) (Ev (n + 1)) Dv r F a segs = Ok o2 ->
+  audio_segment fx nr1 (Sv n) (Ev n) Dv r F a segs = Ok o1 ->
+  audio_segment fx nr2 (Sv (n + 1)) (Ev (n + 1)) Dv r F a segs = Ok o2 ->
   o_tfdt o1 = f (Sv n) /\
   lenZ (o_frames o1) = (f (Ev n) - f (Sv n)) / F /\
   (f (Ev n) - f (Sv n)) mod F = 0 /\
   o_tfdt o1 + lenZ (o_frames o1) * F = o_tfdt o2.
 Proof.
   intros P1 P2 H1 H2.
-  assert (N1 : ref_not_inner segs n) by (apply (ref_served_iff nr1 segs n P1); eauto).
-  assert (N2 : ref_not_inner segs (n + 1)) by (apply (ref_served_iff nr2 segs (n + 1) P2); eauto).
-  rewrite (ref_served_frames nr1 segs n P1 N1) in H1. injection H1 as <-.
-  rewrite (ref_served_frames nr2 segs (n + 1) P2 N2) in H2. injection H2 as <-.
+  assert (N1 : fx = true \/ ref_not_inner segs n).
+  { destruct fx; [now left|right]. apply (ref_served_iff nr1 segs n P1); eauto. }
+  assert (N2 : fx = true \/ ref_not_inner segs (n + 1)).
+  { destruct fx; [now left|right]. apply (ref_served_iff nr2 segs (n + 1) P2); eauto. }
+  rewrite (ref_served_frames fx nr1 segs n P1 N1) in H1. injection H1 as <-.
+  rewrite (ref_served_frames fx nr2 segs (n + 1) P2 N2) in H2. injection H2 as <-.
   cbn [o_tfdt o_frames].
   pose proof (TimelineProofs.S_E_contiguous vr loopMS W n (rp_n _ _ P1)) as Hc.
   pose proof (TimelineProofs.S_lt_E vr loopMS W n (rp_n _ _ P1)) as Hlt.
@@ -1234,7 +1274,7 @@ Qed.
 Lemma inner_refuted_witness :
   ref_pre 90000 1024 48000 w_video w_audio8 1 /\
   ~ ref_not_inner 90000 1024 48000 w_video w_audio8 1 /\
-  audio_segment 1 (Timeline.S w_video 1) (Timeline.E w_video 1) (Timeline.repDuration w_video)
+  audio_segment false 1 (Timeline.S w_video 1) (Timeline.E w_video 1) (Timeline.repDuration w_video)
                 90000 1024 48000 w_audio8 = Err "audioLeft != audioInEndAfterWrap".
 Proof.
   split; [|split].
@@ -1243,6 +1283,13 @@ Proof.
   - unfold ref_not_inner. vm_compute. discriminate.
   - vm_compute. reflexivity.
 Qed.
+
+(** the same request with proposed_fixes/C03-endidx.diff applied: source frames 94..187 *)
+Lemma inner_fixed_witness :
+  audio_segment true 1 (Timeline.S w_video 1) (Timeline.E w_video 1) (Timeline.repDuration w_video)
+                90000 1024 48000 w_audio8
+  = Ok {| o_tfdt := 96256; o_seq := 1; o_frames := rangeZ 94 188 |}.
+Proof. vm_compute. reflexivity. Qed.
 
 (** C03_short_audio_refuted: an audio table that does not reach the start of the reference segment.
     With the first two 2 s audio segments against the 8 s video loop, reference segment 2 gives an
@@ -1253,9 +1300,9 @@ Definition w_audio_quarter : list seg := [ Build_seg 0 96256 94 ].
 
 Lemma short_audio_refuted_witness :
   awf 1024 w_audio_half /\ awf 1024 w_audio_quarter /\
-  audio_segment 2 (Timeline.S w_video 2) (Timeline.E w_video 2) (Timeline.repDuration w_video)
+  audio_segment false 2 (Timeline.S w_video 2) (Timeline.E w_video 2) (Timeline.repDuration w_video)
                 90000 1024 48000 w_audio_half = Err "audioLeft != audioInEndAfterWrap" /\
-  audio_segment 3 (Timeline.S w_video 3) (Timeline.E w_video 3) (Timeline.repDuration w_video)
+  audio_segment false 3 (Timeline.S w_video 3) (Timeline.E w_video 3) (Timeline.repDuration w_video)
                 90000 1024 48000 w_audio_quarter = Panic "createAudioSeg: index out of range (rep.Segments[startNr])".
 Proof.
   split; [|split; [|split]].
@@ -1271,7 +1318,7 @@ Qed.
 Lemma frames_example :
   ref_pre 90000 1024 48000 w_video w_audio2short 11 /\
   ref_not_inner 90000 1024 48000 w_video w_audio2short 11 /\
-  (forall o, audio_segment 12 (Timeline.S w_video 11) (Timeline.E w_video 11) (Timeline.repDuration w_video)
+  (forall o, audio_segment false 12 (Timeline.S w_video 11) (Timeline.E w_video 11) (Timeline.repDuration w_video)
                            90000 1024 48000 w_audio2short = Ok o ->
              o_tfdt o = 1056768 /\ o_seq o = 12 /\
              o_frames o = rangeZ 282 372 ++ [371; 371; 371]).
